@@ -858,7 +858,7 @@ class Programs(Batch):
         cur = with_prog(p, cur)
         # 5. shrink cache configuration towards "off"
         cfg = dict(cur["cfg"])
-        for key in ("ic_on", "dc_on"):
+        for key in ("ic_on", "dc_on", "decoy"):
             if budget.spent():
                 break
             if cfg.get(key) and key not in self.force:
